@@ -204,6 +204,7 @@ def check_minimal(case):
     with warnings.catch_warnings():
         warnings.simplefilter("ignore")
         m = coreops.build_model(spec)
+        fbagen.prior_history(m, case.get("history"))
         try:
             res = minimal_medium(m, min_objective_value=float(min_obj), exports=case["exports"],
                                  minimize_components=case["minimize_components"], open_exchanges=case["open_exchanges"])
@@ -254,7 +255,7 @@ def gen_case(rng):
         return {"kind": "setter", "spec": spec, "medium": {k: n2s(rng.choice([0, 0, 1, 5, F(7, 2), 10, 1000, F(1, 4)])) for k in ids}}
     return {"kind": "minimal", "spec": spec, "min_objective_value": rng.choice(["1/10", "1", "2", "5", "50", "2000", "1/2"]),
             "exports": rng.random() < 0.3, "minimize_components": rng.random() < 0.45,
-            "open_exchanges": rng.choice([False, False, True, 50])}
+            "open_exchanges": rng.choice([False, False, True, 50]), "history": rng.choice(fbagen.HISTORIES)}
 
 
 def check_case(case):
